@@ -287,9 +287,10 @@ class World:
             x = self.h[h]
             lst = x["lst"]
             if op == "hold":
-                x["it"] = lst.iter_value_references()
-                x["refs"] = [next(x["it"]) for _ in range(ev["i"])]
-                next(x["it"], None)     # the generator stays suspended, one value further (it keeps THAT node alive)
+                it = lst.iter_value_references()
+                x["refs"] = [next(it) for _ in range(ev["i"])]
+                it.close()      # consumed partially and abandoned (a suspended generator would keep the head
+                #                 node alive and with it values removed later: their references would not fail)
                 return "ok", None, "ok"
             if op == "heldget":
                 return "ok", [x["refs"][ev["i"] - 1].value], "ok"
